@@ -46,8 +46,9 @@ def serialize_impl(name, ref, old, new_data):
         out = serialize(name, ref, old, new_data)
     except SerializationNotSupportedError:
         return [1, 11], None
-    except TypeError:
-        return [1, 1], None
+    except Exception as e:  # noqa: any other exception is reported, not propagated
+        from harness.common import TAGS
+        return [1, TAGS.get(type(e).__name__, 99)], None
     text = out.decode("utf-8")
     return [0, s2l(text)], text
 
@@ -257,8 +258,10 @@ WITNESSES = [
 ]
 
 
-def run_witnesses(chk):
+def run_witnesses(chk, only=None):
     for sig, fmt, ref_t, old_t, new_data in WITNESSES:
+        if only is not None and (ref_t, old_t) != only:
+            continue
         name = FNAME[fmt]
         ref = walk_bytes(name, ref_t.encode("utf-8"))
         old = walk_bytes(name, old_t.encode("utf-8"))
@@ -344,8 +347,9 @@ def run(chk, runner_ok):
             try:
                 w = e.wrap(raw)
                 wimpl.append([0, [s2l(w.key), s2l(w.raw_val), s2l(w.all)]])
-            except TypeError:
-                wimpl.append([1, 1])
+            except Exception as ex:  # noqa
+                from harness.common import TAGS
+                wimpl.append([1, TAGS.get(type(ex).__name__, 99)])
             wcases.append({"fmt": fmt, "text": text, "key": e.key, "raw": raw})
             wreqs.append((1, [s2l(text), wrapinfo(e, [raw]), s2l(e.key), s2l(raw)]))
             chk.count(("wrap", fmt, text, e.key, raw))
@@ -388,7 +392,7 @@ def replay(chk, path):
             else:
                 oracle_serialize(sub, case, ref, text)
         else:
-            run_witnesses(sub)
+            run_witnesses(sub, only=(c["ref"], c["old"]))
         still = sub.failures[before:]
         print("recorded", f["signature"], "->", "still fails: " + still[0]["signature"] if still else "passes now")
         for x in still[:1]:
